@@ -4,7 +4,8 @@ import ZenonVerif.Gen.Genesis
 C20 — genesis. Stands for
   chain/nom/momentum_content.go   NewMomentumContent, AccountBlockHeaderComparer
   common/types/account_header.go  AccountHeader.Bytes
-  chain/genesis/shared_tests.go   CheckGenesis and its five validators, checkAccountBalance
+  chain/genesis/shared_tests.go   CheckGenesis and its five validators, checkAccountBalance (as repaired by 842d79c,
+                                  bf6e6a8, 5b5b1ec, 4c4dee5: no-entry, duplicate-entry, nil/negative-amount, MaxSupply checks)
   chain/genesis/account_block.go  wrap (how GenesisBlocks entries become ledger balances: SetBalance per entry,
                                   in list order, for every entry of the address — later entries overwrite)
   chain/chain.go                  checkGenesisCompatibility
@@ -37,17 +38,20 @@ def newMomentumContent (l : List Header) : List Header := l.mergeSort hdrLe
 
 /-! ### the part of a genesis configuration the validators look at -/
 
-/-- `GenesisBlockConfig`: `BalanceList` is a Go map — modelled as an association list (keys distinct: `Config.WF`) -/
+/-- `GenesisBlockConfig`: `BalanceList` is a Go map `map[ZenonTokenStandard]*big.Int` — modelled as an association list
+    (keys distinct: `Config.WF`); the amount `none` is the nil pointer (a `null` / what a hand-built configuration can
+    carry) -/
 structure Block where
   addr : Bytes
-  bal : List (Bytes × Int)
+  bal : List (Bytes × Option Int)
   deriving DecidableEq, Repr
 
-/-- `definition.TokenInfo` (the three fields that matter here) -/
+/-- `definition.TokenInfo` (the three fields that matter here); `max = none` is a nil `MaxSupply` (field missing in the
+    file). A nil `TotalSupply` is outside the model: the validator dereferences it (see the note at `checkGenesis`). -/
 structure Token where
   zts : Bytes
   total : Int
-  max : Int
+  max : Option Int
   deriving DecidableEq, Repr
 
 /-- `GenesisConfig`; the `has…` flags say whether the pointer field is non-nil -/
@@ -68,31 +72,39 @@ structure Config where
   swaps : List (Option Int × Option Int) := []
   deriving DecidableEq, Repr
 
-/-- representation invariant of the Go types: map keys are distinct -/
+/-- representation invariant of the Go types: the keys of a Go map are distinct (the JSON decoder keeps the last of two
+    equal keys, so a file cannot break it either) -/
 def Config.WF (c : Config) : Prop := ∀ b ∈ c.blocks, (b.bal.map (·.1)).Nodup
 
 def isum : List Int → Int
   | [] => 0
   | x :: xs => x + isum xs
 
-/-- map lookup -/
-def lookup (m : List (Bytes × Int)) (z : Bytes) : Option Int :=
+/-- map lookup (`v, ok := m[z]`: `none` = not ok) -/
+def lookup {α : Type} (m : List (Bytes × α)) (z : Bytes) : Option α :=
   match m with
   | [] => none
   | (k, v) :: rest => if k = z then some v else lookup rest z
 
 /-- the two loops of `checkAccountBalance` for one block: every given token is required with the same amount;
-    every required token with a non-zero amount is given. (Go iterates maps in random order and returns the first
-    error; acceptance does not depend on that order.) -/
+    every required token with a non-zero amount is given (the KEY is present — `_, ok := block.BalanceList[token]`).
+    (Go iterates maps in random order and returns the first error; acceptance does not depend on that order.)
+    A nil amount under a token that is not required is the "Extra token" error; under a required token Go dereferences
+    nil (`requiredAmount.Cmp(nil)`): never accepted — the model refuses in the same validator. -/
 def blockOK (required : List (Bytes × Int)) (b : Block) : Bool :=
   b.bal.all (fun e => match lookup required e.1 with
                       | none => false
-                      | some r => r == e.2) &&
+                      | some r => e.2 == some r) &&
   required.all (fun r => (lookup b.bal r.1).isSome || r.2 == 0)
 
-/-- `checkAccountBalance(g, addr, required)`: only the entries OF THAT ADDRESS are looked at — none at all is fine -/
+/-- the `GenesisBlocks` entries of one address -/
+def ownBlocks (c : Config) (addr : Bytes) : List Block := c.blocks.filter (fun b => b.addr = addr)
+
+/-- `checkAccountBalance(g, addr, required)`: first the loop over the entries OF THAT ADDRESS (`blockOK` each), then
+    `if !found`: an address without any entry is fine only when every required amount is zero -/
 def checkAccountBalance (c : Config) (addr : Bytes) (required : List (Bytes × Int)) : Bool :=
-  (c.blocks.filter (fun b => b.addr = addr)).all (blockOK required)
+  (ownBlocks c addr).all (blockOK required) &&
+    (!(ownBlocks c addr).isEmpty || required.all (fun r => r.2 == 0))
 
 def fusionSum (c : Config) : Int := isum (c.fusions.map (fun f => f.getD 0))
 def pillarSum (c : Config) : Int := isum c.pillars
@@ -114,17 +126,43 @@ def checkSwapAccount (c : Config) : Bool :=
 def checkPillarBalance (c : Config) : Bool :=
   checkAccountBalance c Gen.PillarContract [(Gen.ZnnTokenStandard, pillarSum c)]
 
-/-- all `(zts, amount)` entries of all blocks -/
-def givenEntries (c : Config) : List (Bytes × Int) := c.blocks.flatMap (·.bal)
+/-- `amount == nil || amount.Sign() < 0` is the error -/
+def amountOK (a : Option Int) : Bool :=
+  match a with
+  | none => false
+  | some v => decide (0 ≤ v)
 
-/-- the `given` map of `CheckTokenTotalSupply`: sum over ALL entries of all blocks -/
-def givenSum (c : Config) (z : Bytes) : Int := isum (((givenEntries c).filter (fun e => e.1 = z)).map (·.2))
+/-- first loop of `CheckTokenTotalSupply`, block by block in list order with the `seen` set: an address seen before is
+    the error "more than one genesis block"; then every amount of the block must be present and non-negative -/
+def scanBlocks : List Bytes → List Block → Bool
+  | _, [] => true
+  | seen, b :: rest => !(seen.contains b.addr) && b.bal.all (fun e => amountOK e.2) && scanBlocks (b.addr :: seen) rest
+
+/-- all `(zts, amount)` entries of all blocks -/
+def givenEntries (c : Config) : List (Bytes × Option Int) := c.blocks.flatMap (·.bal)
+
+/-- the `given` map of `CheckTokenTotalSupply`: sum over ALL entries of all blocks (once `scanBlocks` has passed every
+    amount is present, so `getD` never takes its default) -/
+def givenSum (c : Config) (z : Bytes) : Int :=
+  isum (((givenEntries c).filter (fun e => e.1 = z)).map (fun e => e.2.getD 0))
 
 def givenHas (c : Config) (z : Bytes) : Bool := (givenEntries c).any (fun e => e.1 = z)
 
-/-- `CheckTokenTotalSupply` (MaxSupply is not looked at) -/
+/-- `MaxSupply == nil || TotalSupply.Cmp(MaxSupply) > 0` is the error -/
+def maxOK (t : Token) : Bool :=
+  match t.max with
+  | none => false
+  | some m => decide (t.total ≤ m)
+
+/-- second loop of `CheckTokenTotalSupply`, per declared token in this order: given at all, `TotalSupply` equals the
+    sum given, `MaxSupply` present and not below `TotalSupply` -/
+def tokenOK (c : Config) (t : Token) : Bool := givenHas c t.zts && t.total == givenSum c t.zts && maxOK t
+
+/-- `CheckTokenTotalSupply`: the three loops in the order of the code; every refusal is one verdict class, so which of
+    several applicable errors Go reports does not show in the verdict -/
 def checkTokenTotalSupply (c : Config) : Bool :=
-  c.tokens.all (fun t => givenHas c t.zts && t.total == givenSum c t.zts) &&
+  scanBlocks [] c.blocks &&
+    c.tokens.all (tokenOK c) &&
     (givenEntries c).all (fun e => c.tokens.any (fun t => t.zts = e.1))
 
 inductive Verdict
@@ -139,7 +177,11 @@ def Verdict.show : Verdict → String
   | .pillar => "reject pillar"
   | .supply => "reject supply"
 
-/-- `CheckGenesis`: the validators in the order of `Gen.checkGenesisOrder`, first refusal wins -/
+/-- `CheckGenesis`: the validators in the order of `Gen.checkGenesisOrder`, first refusal wins.
+    Domain: the verdict CLASS is the real one wherever the real validators return (nil or an error). They dereference nil
+    — a Go panic, which `ReadGenesisConfigFromFile` now turns into `ErrInvalidGenesisConfig` — on a missing `TotalSupply`,
+    pillar `Amount` or fusion `Amount` (not representable here: never accepted) and on a nil amount under the required
+    token in an entry of the plasma / pillar / swap contract (the model refuses it in that validator). -/
 def checkGenesis (c : Config) : Verdict :=
   if !checkFieldsExist c then .fields
   else if !checkPlasmaInfo c then .plasma
@@ -154,13 +196,16 @@ def checkGenesis (c : Config) : Verdict :=
     value, and `GetBalance` reads it back with `SetBytes` — the sign is lost -/
 def stored (a : Int) : Int := a.natAbs
 
+/-- … and `BigIntToBytes(nil)` writes zero -/
+def storedOpt (a : Option Int) : Int := stored (a.getD 0)
+
 /-- `wrap`: for every entry of the address, in list order, `SetBalance(zts, amount)` for each map entry — a later
     entry overwrites an earlier one; an address without entries holds nothing -/
 def ledgerBalance (c : Config) (addr z : Bytes) : Int :=
-  (c.blocks.filter (fun b => b.addr = addr)).foldl (fun acc b => ((lookup b.bal z).map stored).getD acc) 0
+  (ownBlocks c addr).foldl (fun acc b => ((lookup b.bal z).map storedOpt).getD acc) 0
 
-/-- no negative amount in any balance list (nothing in the code checks this) -/
-def Config.NonNeg (c : Config) : Prop := ∀ b ∈ c.blocks, ∀ e ∈ b.bal, 0 ≤ e.2
+/-- the amount a balance list gives for a token: 0 when the token is not listed (or listed with a nil amount) -/
+def listed (m : List (Bytes × Option Int)) (z : Bytes) : Int := ((lookup m z).map (fun a => a.getD 0)).getD 0
 
 def dedup : List Bytes → List Bytes
   | [] => []
